@@ -47,7 +47,7 @@ Print Assumptions faults_surface.
 (* a required, accepted, not ignored file within the size limit always produces its outcome event:
    Extract, or the open / stat error that is then part of the status *)
 Theorem required_file_outcome : forall c p size ff es e,
-  size_ok c size = true -> In e es -> c_required c e p = true ->
+  size_ok c size = true -> In e es -> req c e p size ff = true ->
   In (outcome_event e p ff) (ext_events c p size ff es false).
 Proof. intros c p size ff es e S. apply ext_events_required. rewrite S. reflexivity. Qed.
 Print Assumptions required_file_outcome.
@@ -61,7 +61,7 @@ Print Assumptions fatal_iff_traversal_fault.
 
 (* the overall status: failed iff filesystem.Run returned an error *)
 Theorem scan_status_derivation : forall c roots r,
-  roots <> [] -> (c_paths c = [] \/ (length roots <= 1)%nat) -> scan c roots = ScanDone r ->
+  roots <> [] -> (c_paths c = [] \/ (length roots <= 1)%nat) -> scan c [] roots = ScanDone r ->
   (sr_failed r = false <-> exists inv sts st, run c roots = ROk inv sts st).
 Proof. exact scan_status_lemma. Qed.
 Print Assumptions scan_status_derivation.
